@@ -944,6 +944,130 @@ theorem write_read_faithful (xs : List Entry) (np : Bool) (d : DT)
 
 
 
+/-! ### entries of differing numeric kind: the stored dtype never narrows (C05-c) -/
+
+/-- numpy promotion of two non-string dtypes is floating as soon as one of them is -/
+theorem promote_float (a c : DT) (ha : a ≠ .str) (hc : c ≠ .str) (h : a.isFloat = true ∨ c.isFloat = true) :
+    (promote a c).isFloat = true := by
+  cases a <;> cases c <;> simp_all [promote, DT.isFloat, DT.isInt, DT.isSigned, DT.isUnsigned, DT.bits]
+
+/-- … and is never narrower (in bits) than either of them -/
+theorem promote_bits (a c : DT) (ha : a ≠ .str) (hc : c ≠ .str) :
+    a.bits ≤ (promote a c).bits ∧ c.bits ≤ (promote a c).bits := by
+  cases a <;> cases c <;> simp_all [promote, DT.isFloat, DT.isInt, DT.isSigned, DT.isUnsigned, DT.bits, signedOfBits]
+
+/-- the promotion is a string dtype exactly when one side is -/
+theorem promote_str (a c : DT) : promote a c = .str ↔ a = .str ∨ c = .str := by
+  cases a <;> cases c <;> simp [promote, DT.isFloat, DT.isInt, DT.isSigned, DT.isUnsigned, DT.bits, signedOfBits]
+
+private theorem foldl_promote_str (ds : List DT) : ∀ (d : DT), ds.foldl promote d = .str ↔ d = .str ∨ .str ∈ ds := by
+  induction ds with
+  | nil => intro d; simp
+  | cons x r ih =>
+    intro d
+    simp only [List.foldl_cons, ih, promote_str, List.mem_cons]
+    constructor
+    · rintro ((h | h) | h)
+      · exact Or.inl h
+      · exact Or.inr (Or.inl h.symm)
+      · exact Or.inr (Or.inr h)
+    · rintro (h | h | h)
+      · exact Or.inl (Or.inl h)
+      · exact Or.inl (Or.inr h.symm)
+      · exact Or.inr h
+
+private theorem foldl_promote_float (ds : List DT) : ∀ (d : DT), d ≠ .str → .str ∉ ds →
+    (d.isFloat = true ∨ ∃ x ∈ ds, x.isFloat = true) → (ds.foldl promote d).isFloat = true := by
+  induction ds with
+  | nil => intro d _ _ h; rcases h with h | ⟨x, hx, _⟩; exact h; simp at hx
+  | cons x r ih =>
+    intro d hd hs h
+    have hx : x ≠ .str := fun e => hs (by simp [e])
+    have hr : .str ∉ r := fun e => hs (by simp [e])
+    simp only [List.foldl_cons]
+    apply ih (promote d x) (by rw [Ne, promote_str]; simp [hd, hx]) hr
+    rcases h with h | ⟨y, hy, hyf⟩
+    · exact Or.inl (promote_float d x hd hx (Or.inl h))
+    · rcases List.mem_cons.mp hy with rfl | hy'
+      · exact Or.inl (promote_float d y hd hx (Or.inr hyf))
+      · exact Or.inr ⟨y, hy', hyf⟩
+
+/-- **`np.array` of entries of differing numeric kinds is floating as soon as one entry is** (no string among them):
+`promoteAll` is what `_writeParams` / `JaggedArray` store the flattened data as, so a column whose FIRST entry is
+integer-typed and a later one holds reals is stored as reals — 1.5 cannot become 1 through the choice of dtype -/
+theorem promoteAll_float (ds : List DT) (hs : .str ∉ ds) (h : ∃ x ∈ ds, x.isFloat = true) : (promoteAll ds).isFloat = true := by
+  cases ds with
+  | nil => obtain ⟨x, hx, _⟩ := h; simp at hx
+  | cons d r =>
+    simp only [promoteAll]
+    apply foldl_promote_float r d (fun e => hs (by simp [e])) (fun e => hs (by simp [e]))
+    obtain ⟨x, hx, hxf⟩ := h
+    rcases List.mem_cons.mp hx with rfl | hx'
+    · exact Or.inl hxf
+    · exact Or.inr ⟨x, hx', hxf⟩
+
+theorem promoteAll_str (ds : List DT) : promoteAll ds = .str ↔ .str ∈ ds := by
+  cases ds with
+  | nil => simp [promoteAll]
+  | cons d r => simp only [promoteAll, foldl_promote_str, List.mem_cons]; constructor <;> (rintro (h | h) <;> simp_all)
+
+private theorem packJGo_dts : ∀ (items : List JItem) (i off : Nat) (p : JPacked), packJGo items i off = some p →
+    ∀ sh dt vals, JItem.data sh dt vals ∈ items → vals ≠ [] → dt ∈ p.dts := by
+  intro items
+  induction items with
+  | nil => intro i off p _ sh dt vals hm; simp at hm
+  | cons it r ih =>
+    intro i off p h sh dt vals hm hne
+    cases it with
+    | none =>
+      simp only [packJGo, Option.map_eq_some_iff] at h
+      obtain ⟨p', hp', rfl⟩ := h
+      simp only [List.mem_cons, reduceCtorEq, false_or] at hm
+      exact ih _ _ _ hp' sh dt vals hm hne
+    | err => simp [packJGo] at h
+    | data sh' dt' vals' =>
+      simp only [packJGo, Option.map_eq_some_iff] at h
+      obtain ⟨p', hp', rfl⟩ := h
+      rcases List.mem_cons.mp hm with heq | hm'
+      · cases heq
+        have : vals.isEmpty = false := by cases vals <;> simp_all
+        simp [this]
+      · have := ih _ _ _ hp' sh dt vals hm' hne
+        simp only
+        split
+        · exact this
+        · exact List.mem_cons_of_mem _ this
+
+/-- **C05-c for the ragged strategy**: when `JaggedArray` + `packSpecialData` accept a list of entries of whatever
+numeric kinds, in whatever order (narrowest first included), and some non-empty entry is of a floating kind, the dataset
+they store is of a floating kind — it is never typed after the first entry. (The values themselves are then numpy's
+casts int → real, exact below 2^53; the harness compares them numerically on every generated list.) -/
+theorem jagged_keeps_real_kind (xs : List Entry) (d : DT) (flat : List SV) (offs : List Nat) (shs : Shapes) (nones : List Nat)
+    (h : writeJagged xs = .ok (.jagged d flat offs shs nones))
+    (e : Entry) (he : e ∈ xs) (sh : JShape) (dt : DT) (vals : List SV) (hc : classifyJ e = .data sh dt vals)
+    (hne : vals ≠ []) (hf : dt.isFloat = true) : d.isFloat = true := by
+  unfold writeJagged at h
+  split at h
+  · simp at h
+  · rename_i p hp
+    split at h
+    · simp at h
+    · split at h
+      · simp at h
+      · simp only at h
+        split at h
+        · simp at h
+        · rename_i hnstr
+          simp only [WriteRes.ok.injEq, Stored.jagged.injEq] at h
+          obtain ⟨rfl, _⟩ := h
+          have hmem : dt ∈ p.dts := packJGo_dts _ 0 0 p hp sh dt vals (by rw [← hc]; exact List.mem_map_of_mem he) hne
+          exact promoteAll_float p.dts (fun hs => hnstr ((promoteAll_str p.dts).mpr hs)) ⟨dt, hmem, hf⟩
+
+/-- non-vacuity: integer-typed first entry, reals later, a None: stored as float64; the reverse order likewise -/
+example : (match writeJagged [.list false .i64 [.i 1, .i 2, .i 3], .list false .f64 [.f (some 5), .f (some 6)], .none] with
+    | .ok (.jagged d _ _ _ _) => some d | _ => Option.none) = some .f64 := by decide
+example : promoteAll [.b, .i8, .f32] = .f32 ∧ promoteAll [.i64, .f32] = .f64 ∧ promoteAll [.u8, .i64, .b] = .i64 := by decide
+
 /-! ### the hypotheses of the main theorem, decided -/
 
 theorem entryWFB_iff (np : Bool) (d : DT) (e : Entry) : entryWFB np d e = true ↔ EntryWF np d e := by
